@@ -50,7 +50,9 @@ Under(p, q)  == Len(q) >= Len(p) /\ SubSeq(q, 1, Len(p)) = p         \* q is p o
 Parent(p)    == SubSeq(p, 1, Len(p) - 1)
 Leaf(p)      == p[Len(p)]
 Owner(p)     == IF Len(p) >= 2 THEN p[2] ELSE "none"
-Alts(c)      == CASE c = "a,c" -> {"a", "c"} [] c = "s2,s3" -> {"s2", "s3"} [] OTHER -> {c}
+Alts(c)      == CASE c = "a,c" -> {"a", "c"} [] c = "s2,s3" -> {"s2", "s3"}
+                  [] c = "q\\(1\\)" -> {"q(1)"}          \* a literal clause whose token characters are escaped (EscapeRegexTokens) matches the name itself
+                  [] OTHER -> {c}
 CM(c, name)  == c = "*" \/ name \in Alts(c)                           \* a clause: "*", a comma list of literals, or a literal
 Match(pat, p) == Len(pat) = Len(p) /\ \A i \in 1..Len(p) : CM(pat[i], p[i])
 \* a path string without leading slash gets the default prefix (subscriptions, KICK, GETDATA ...)
@@ -247,6 +249,8 @@ FullMenu ==
     \cup {C("SETDATA", FALSE, <<"a", "I0">>, "index", 5), C("SETDATA", FALSE, <<"a", "I1">>, "index", 6)}
     \cup {C("SETDATA", FALSE, <<"a">>, "quiet", 7), C("SETDATA", FALSE, <<"a", "b">>, "quiet", 7), C("SETDATA", FALSE, <<"c">>, "quiet", 1), C("SETDATA", FALSE, <<"a">>, "", 2), C("SETDATA", FALSE, <<"c">>, "", 2)}
     \cup {C("SUBSCRIBE", FALSE, <<"a">>, "", 2), C("SUBSCRIBE", TRUE, <<"*", "*", "c">>, "", 1), C("REMOVEPARAM", FALSE, <<"a">>, "SUBSCRIBE:", 0)}
+    \* node names with regex token characters, and all-literal subscriptions that escape them (the walk then looks the child up by its un-escaped name)
+    \cup {C("SETDATA", FALSE, <<"q(1)">>, "", 7), C("SUBSCRIBE", TRUE, <<"hA", "s2", "q\\(1\\)">>, "", 0), C("REMOVEPARAM", TRUE, <<"hA", "s2", "q\\(1\\)">>, "SUBSCRIBE:", 0)}
     \cup {C("REMOVEDATA", x[1], x[2], "", 0) : x \in RemPaths}
     \cup {C("INSERTORDEREDDATA", x[1], x[2], b, 8) : x \in InsPaths, b \in {"zz", "I0"}}
     \cup {C("REORDERDATA", x[1], x[2], x[3], 0) : x \in ReoCmds}
